@@ -45,7 +45,7 @@ func main() {
 	var histories, spentIDs int64
 	type tally struct{ spent map[[32]byte]int }
 	tallies := map[*chain.Sim]*tally{}
-	opts := chain.RunOpts{Num: c.Pick(240, 6000), Depth: 56, Timeout: 20 * time.Minute,
+	opts := chain.RunOpts{Num: c.Pick(160, 4000), Depth: 56, Timeout: 20 * time.Minute,
 		KeyOf: func(m chain.Mismatch) string { return m.Kind + "/" + m.Tag },
 		NewSim: func(sim *chain.Sim) {
 			t := &tally{spent: map[[32]byte]int{}}
@@ -128,11 +128,66 @@ func main() {
 		},
 	}
 	total := chain.RunStats{Tags: map[string]int{}}
-	for _, name := range []string{"v1only", "mixed", "v2only"} {
-		cfg := chain.BaseConfig(chain.Shapes()[name])
+	type run struct {
+		shape string
+		tpl   []string
+	}
+	for _, rn := range []run{{"v1only", chain.AllTemplates}, {"mixed", chain.AllTemplates}, {"v2only", chain.AllTemplates},
+		{"v1only", []string{"form1", "rev1", "prove1"}}, {"v2only", []string{"form2", "rev2", "res2", "renew2"}},
+		{"mixed", []string{"pay", "sf", "form1", "rev1", "prove1", "form2", "rev2", "res2"}}} {
+		cfg := chain.BaseConfig(chain.Shapes()[rn.shape])
+		cfg.Templates = rn.tpl
 		cfg.Defects = []string{"reuse", "intx"}
 		cfg.MaxReverts = 2
-		st := chain.Run(c, cfg, opts)
+		o := opts
+		if len(rn.tpl) < len(chain.AllTemplates) {
+			// several uses of one contract / output inside one block (revise, prove, then a second use)
+			o.NoFocus = true
+			cfg.Pay1, cfg.Sizes, cfg.FormRH, cfg.PayAmts, cfg.Fees, cfg.MaxTxns = []int{256411}, []int{200}, [][2]int{{250024, 25}}, []int{599}, []int{0}, 4
+		}
+		st := chain.Run(c, cfg, o)
+		total.Behaviours += st.Behaviours
+		total.Steps += st.Steps
+		total.Accepted += st.Accepted
+		total.Rejected += st.Rejected
+	}
+	// exhaustive narrow families: every behaviour (up to the first rejected block) of small configurations in which
+	// several uses of one element meet in one block
+	type fam struct {
+		name, shape   string
+		tpl           []string
+		height, txns  int
+		gen           []chain.AbsOut
+	}
+	fams := []fam{
+		{"v1-contract", "v1only", []string{"form1", "rev1", "prove1"}, 2, 3, []chain.AbsOut{{600000, "B"}}},
+		{"v2-contract", "v2only", []string{"form2", "rev2", "res2"}, 3, 2, []chain.AbsOut{{600000, "B"}}},
+		{"v1-payments", "v1only", []string{"pay", "sf"}, 2, 2, []chain.AbsOut{{1199, "B"}}},
+		{"v2-payments", "v2only", []string{"pay", "sf"}, 2, 2, []chain.AbsOut{{1199, "B"}}},
+		{"mixed-payments", "mixed", []string{"pay"}, 3, 2, []chain.AbsOut{{1199, "B"}}},
+	}
+	if c.Thorough {
+		fams = append(fams, fam{"v2-renewal", "v2only", []string{"form2", "rev2", "renew2"}, 3, 2, []chain.AbsOut{{600000, "B"}, {300000, "B"}}},
+			fam{"mixed-payments-4", "mixed", []string{"pay"}, 4, 2, []chain.AbsOut{{1199, "B"}}},
+			fam{"v1-contract-3", "v1only", []string{"form1", "rev1", "prove1"}, 3, 2, []chain.AbsOut{{600000, "B"}}})
+	}
+	for _, f := range fams {
+		p := chain.Shapes()[f.shape]
+		p.GenSC = f.gen
+		if f.shape == "mixed" {
+			p.AllowH, p.RequireH, p.EphH = 2, 4, 3
+		}
+		cfg := chain.BaseConfig(p)
+		cfg.Addrs = []string{"B"}
+		cfg.Templates, cfg.Defects = f.tpl, []string{"reuse", "intx"}
+		cfg.Pay1, cfg.Sizes, cfg.RevShifts, cfg.FormRH = []int{256411}, []int{200}, []int{24}, [][2]int{{250024, 25}}
+		cfg.PayAmts, cfg.Fees, cfg.SFSplits = []int{599}, []int{0}, []int{3000}
+		cfg.WinStarts, cfg.WinLens = []int{1}, []int{2}
+		cfg.MaxHeight, cfg.MaxTxns, cfg.MaxReverts, cfg.NoPost = f.height, f.txns, 0, true
+		o := opts
+		o.Exhaustive = true
+		st := chain.Run(c, cfg, o)
+		c.Cov("exhaustive_family_"+f.name+"_behaviours", st.Behaviours)
 		total.Behaviours += st.Behaviours
 		total.Steps += st.Steps
 		total.Accepted += st.Accepted
